@@ -16,7 +16,7 @@ META = {
         "each exit Client.config must equal the snapshot taken at entry, and a final request checks the restored "
         "behaviour. Traced job (mode T): the timeout / retries values themselves are symbolic integers flowing "
         "through dataclasses.replace, the context manager and the sender call."),
-    "bounds": ["histories of up to 5 steps (quick) / 6 steps (thorough) over 9 step kinds, nesting depth <= 4, plus a final request",
+    "bounds": ["histories of up to 5 steps (quick) / 6 steps (thorough) over 10 step kinds, nesting depth <= 4, plus a final request",
                "credentials cycle V2C(public) -> V2C(other) -> V1 -> V3(md5 user) (same-family and cross-family switches)",
                "timeout / retries: distinct concrete values per step (E) and symbolic 1..10^6 (T)"],
     "outside": ["longer histories, deeper nesting", "reconfiguration from several tasks at once"],
@@ -26,7 +26,7 @@ META = {
 
 UNIVERSE = [(o, C.value_for(i)) for i, o in enumerate(C.U14)]
 ACTIONS = ["request", "configure-timeout", "configure-credentials", "enter-timeout", "enter-credentials",
-           "enter-retries+context", "exit-normal", "exit-exception", "unknown-setting"]
+           "enter-retries+context", "exit-normal", "exit-exception", "unknown-setting", "unknown-setting+credentials"]
 
 
 def cred_cycle():
@@ -157,14 +157,18 @@ def make_harness(nsteps, traced=False):
                             problem = "after leaving the block the configuration is %r, before entering it was %r" % (client.config, snap_config)
                         if problem is None and client.mpm is not snap_mpm and type(client.mpm) is not type(snap_mpm):
                             problem = "after leaving the block the message-processing model is %r" % (client.mpm,)
-                    elif name == "unknown-setting":
+                    elif name in ("unknown-setting", "unknown-setting+credentials"):
                         before_cfg, before_mpm = client.config, client.mpm
                         raised = False
+                        extra = {}
+                        if name.endswith("credentials"):
+                            # together with valid credentials of the next family (which must not be applied either)
+                            extra = {"credentials": creds[(cred_next[0] + 1) % len(creds)][2]}
                         try:
                             if len(stack) % 2 == 0:
-                                client.configure(no_such_setting=1)
+                                client.configure(no_such_setting=1, **extra)
                             else:
-                                with client.reconfigure(no_such_setting=1):
+                                with client.reconfigure(no_such_setting=1, **extra):
                                     pass
                         except Exception:  # noqa: BLE001
                             raised = True
@@ -244,7 +248,7 @@ def jobs(tier):
     for first in range(k):
         if ACTIONS[first].startswith("exit"):
             continue   # a history cannot start by leaving a block
-        seconds = range(k) if not quick else [None]
+        seconds = range(k)
         for second in seconds:
             a = [Arg("s0", first, first)] + [Arg(f"s{i}", 0, k - 1) for i in range(1, n)]
             name = f"histories-{n}steps-first-{ACTIONS[first]}"
